@@ -23,6 +23,7 @@ import Driver.DetachHold
 import Driver.IoRead
 import Driver.Routing
 import Driver.ChanRouting
+import Driver.PendingDetach
 
 structure DState where
   sess : Amqp.Session.St := Amqp.Session.init 0 0 0
@@ -62,6 +63,7 @@ def handle (st : DState) (line : String) : DState × String :=
     match Driver.Reasm.step st.reasm ws with
     | some (s, out) => ({ st with reasm := s }, out)
     | none => (st, "bad-op")
+  | "B" :: ws => (st, (Driver.PendingDetach.step ws).getD "bad-op")
   | "J" :: ws =>
     match Driver.ChanRouting.step st.chans ws with
     | some (s, out) => ({ st with chans := s }, out)
